@@ -12,7 +12,7 @@ AllNames == NamesUpTo(MaxSeg)
 AllCMapSites == {"enc", "cmapname", "usecmap", "regord"}
 NoSites == {}
 AllImageCases == {[init |-> i, draws |-> d] : i \in SUBSET {-1, 0, 1}, d \in 1..2}
-FewImageCases == {[init |-> {}, draws |-> 2], [init |-> {-1, 0, 1}, draws |-> 2], [init |-> {-1, 1}, draws |-> 1]}
+FewImageCases == {[init |-> {}, draws |-> 2], [init |-> {-1, 1}, draws |-> 2]}
 NoImageCases == {}
 ImageNames == NamesUpTo(MaxSegImage)
 ====
